@@ -71,6 +71,7 @@ class TransformAdapter:
         class Env:
             pass
         env = self.env = Env()
+        self.n = 0                # per behaviour: the int/float choice depends on the history only
         env.log = []
         env.tr = {}
         env.listeners = {}
